@@ -1,5 +1,187 @@
-import TshVerif.Model.ConvBash
+/-
+  C03 - Bash target preserves slice and string operation semantics.
+
+  Proved here:
+  (a) about the model of converters/bash/converter.go (tied to the code byte for byte):
+    * `slice_literal_lines`: a slice literal first increments the run-time counter `_dvc`, names a NEW
+      array `_dv<_dvc>` (so two literals never share an array), stores the NAME in a fresh helper and
+      then stores the elements at the indices 0, 1, 2, … in order; its value is the reference to
+      that helper -- copying the value copies the name, i.e. aliases the array;
+    * `element_store_line`: `x[i] = v` is one call `_sah ${x} i "v" "<zero value of the element type>"`;
+      `zero_values`: that zero value is 0 for int and bool and the empty string for string;
+  (b) about functional models of the three helper routines whose text is fixed in the script
+      (`_sah`, `_sch`, `_ssh`; the text itself is part of the byte-for-byte correspondence):
+    * `sah_*`: storing at index i of a slice of length n: within bounds only position i changes and the
+      length stays; at or beyond the end the slice grows to i+1, the gap is filled with the zero
+      value, position i holds the value, the old elements are untouched;
+    * `sch_*`: copy(dst, src) makes dst[i] = src[i] for every i < len(src), keeps the rest of a longer
+      destination, grows a shorter one, and the reported count is len(src);
+    * `ssh_is_go_slice`: the helper's offset/length arithmetic `${s:a:(b-a)+1}` on the inclusive pair
+      (a, b) the parser passes (b = end-1) is Go's `s[a:end]` for all 0 ≤ a ≤ end ≤ len(s), including
+      the empty substring; `ssh_single_index`: `s[i]` (pair (i, i)) is the one character at i.
+  That bash executes the helper text as these models say, and aliasing through `eval`, are decided by
+  the execution oracle of the check.
+-/
+import TshVerif.Lemmas.BashStmt
 namespace Tsh.C03
-open Tsh Tsh.Bash
+open Tsh Tsh.Tr Tsh.Bash
+
+/-! ### (a) emitted lines -/
+
+def initLines (arr : String) : List String → Nat → List Line
+  | [], _ => []
+  | v :: rest, i => .sahInit arr i v :: initLines arr rest (i + 1)
+
+theorem sahInits_run (arr : String) : ∀ (vs : List String) (i : Nat) (s : St),
+    sahInits arr vs i s = .ok ((), { s with code := (initLines arr vs i).reverse ++ s.code,
+                                            sahReq := s.sahReq || !vs.isEmpty }) := by
+  intro vs
+  induction vs with
+  | nil => intro i s; simp [sahInits, initLines, pure]
+  | cons v rest ih =>
+    intro i s
+    unfold sahInits
+    simp only [bind, Tr.modify, addLine]
+    rw [ih]
+    simp [initLines]
+
+/-- **A slice literal makes a new array and fills it in order.** -/
+theorem slice_literal_lines (vals : List String) (s : St) :
+    sliceInstantiation vals s =
+      .ok (varEvalString s s!"_h{s.varCounter}" false,
+        { s with varCounter := s.varCounter + 1,
+                 sahReq := s.sahReq || !vals.isEmpty,
+                 code := (initLines (varEvalString s s!"_h{s.varCounter}" false) vals 0).reverse ++
+                         (.assign (varName s s!"_h{s.varCounter}" false) ("_dv" ++ varEvalString s "_dvc" true) :: .dvcIncr :: s.code) }) := by
+  unfold sliceInstantiation
+  simp only [bind, Tr.get, addLine, Tr.modify, nextHelperVar, varAssignment, pure]
+  rw [sahInits_run]
+  simp [varEvalString, varName, inFunction]
+
+/-- **An element store is one helper call carrying the element type's zero value.** -/
+theorem element_store_line (name index value dflt : String) (global : Bool) (s : St) :
+    conv.sliceAssignment name index value dflt global s =
+      .ok ((), { s with sahReq := true, code := .sah (varEvalString s name global) index value dflt :: s.code }) := by
+  simp [conv, bind, Tr.modify, Tr.get, addLine, varEvalString, varName, inFunction]
+
+theorem zero_values (s : St) :
+    defaultValue conv ⟨.int, false⟩ s = .ok ("0", s) ∧ defaultValue conv ⟨.bool, false⟩ s = .ok ("0", s) ∧
+    defaultValue conv ⟨.string, false⟩ s = .ok ("", s) := by
+  refine ⟨rfl, rfl, ?_⟩
+  simp [defaultValue, conv, pure, stringToString]
+
+/-! ### (b) models of the helper routines -/
+
+/-- `_sah arr i v d`: `for ((c=len; c<i; c++)) arr[c]=d; arr[i]=v` on a dense array -/
+def sah {α : Type} (arr : List α) (i : Nat) (v d : α) : List α :=
+  if i < arr.length then arr.set i v else arr ++ List.replicate (i - arr.length) d ++ [v]
+
+theorem sah_length {α : Type} (arr : List α) (i : Nat) (v d : α) : (sah arr i v d).length = max arr.length (i + 1) := by
+  unfold sah; split <;> simp <;> omega
+
+theorem sah_stored {α : Type} (arr : List α) (i : Nat) (v d : α) : (sah arr i v d)[i]? = some v := by
+  unfold sah
+  split
+  · rename_i h; simp [h]
+  · rename_i h
+    have : (arr ++ List.replicate (i - arr.length) d).length = i := by simp; omega
+    rw [List.getElem?_append_right (by omega)]
+    simp [this]
+
+theorem sah_others {α : Type} (arr : List α) (i j : Nat) (v d : α) (hj : j < arr.length) (hne : j ≠ i) :
+    (sah arr i v d)[j]? = arr[j]? := by
+  unfold sah
+  split
+  · simp [Ne.symm hne]
+  · rw [List.append_assoc, List.getElem?_append_left hj]
+
+theorem sah_gap {α : Type} (arr : List α) (i j : Nat) (v d : α) (h1 : arr.length ≤ j) (h2 : j < i) :
+    (sah arr i v d)[j]? = some d := by
+  unfold sah
+  have hi : ¬ i < arr.length := by omega
+  rw [if_neg hi, List.getElem?_append_left (by simp; omega), List.getElem?_append_right h1, List.getElem?_replicate]
+  simp; omega
+
+/-- `_sch dst src`: `for i < len(src): dst[i] = src[i]` (through the growing store) -/
+def sch {α : Type} (dst src : List α) : List α := src ++ dst.drop src.length
+
+theorem sch_copied {α : Type} (dst src : List α) (i : Nat) (h : i < src.length) : (sch dst src)[i]? = src[i]? := by
+  unfold sch; rw [List.getElem?_append_left h]
+
+theorem sch_rest_kept {α : Type} (dst src : List α) (i : Nat) (h : src.length ≤ i) : (sch dst src)[i]? = dst[i]? := by
+  unfold sch
+  rw [List.getElem?_append_right h]
+  simp
+  congr 1; omega
+
+theorem sch_length {α : Type} (dst src : List α) : (sch dst src).length = max dst.length src.length := by
+  unfold sch; simp; omega
+
+/-- the element-wise loop the helper text runs really computes `sch`: store src[k], src[k+1], … at k, k+1, … -/
+def schLoop {α : Type} [Inhabited α] (d : α) : List α → List α → Nat → List α
+  | dst, [], _ => dst
+  | dst, x :: rest, k => schLoop d (sah dst k x d) rest (k + 1)
+
+theorem schLoop_eq {α : Type} [Inhabited α] (d : α) : ∀ (src pre dst : List α), pre.length ≤ dst.length ∨ dst.length ≤ pre.length →
+    schLoop d (pre ++ dst.drop pre.length) src pre.length = (pre ++ src) ++ dst.drop (pre.length + src.length) := by
+  intro src
+  induction src with
+  | nil => intro pre dst _; simp [schLoop]
+  | cons x rest ih =>
+    intro pre dst hd
+    simp only [schLoop]
+    have hs : sah (pre ++ dst.drop pre.length) pre.length x d = (pre ++ [x]) ++ dst.drop (pre ++ [x]).length := by
+      unfold sah
+      by_cases h : pre.length < dst.length
+      · have : pre.length < (pre ++ List.drop pre.length dst).length := by simp; omega
+        simp only [this, if_true]
+        rw [List.set_append_right _ _ (Nat.le_refl _)]
+        simp
+        cases hdd : List.drop pre.length dst with
+        | nil => simp at hdd; omega
+        | cons y ys =>
+          simp
+          have : List.drop (pre.length + 1) dst = ys := by
+            rw [← List.drop_drop, hdd]; simp
+          exact this.symm
+      · have h' : dst.length ≤ pre.length := by omega
+        have e1 : List.drop pre.length dst = [] := List.drop_eq_nil_of_le h'
+        have e2 : List.drop (pre ++ [x]).length dst = [] := List.drop_eq_nil_of_le (by simp; omega)
+        simp [e1, e2]
+        omega
+    rw [hs]
+    have := ih (pre ++ [x]) dst (by simp; omega)
+    simp only [List.length_append, List.length_singleton] at this
+    simp only [List.length_append, List.length_singleton]
+    rw [this]
+    simp [Nat.add_assoc, Nat.add_comm 1]
+
+theorem schLoop_is_sch {α : Type} [Inhabited α] (d : α) (dst src : List α) : schLoop d dst src 0 = sch dst src := by
+  have := schLoop_eq d src [] dst (by simp)
+  simpa [sch] using this
+
+/-- `_ssh s a b`: offset `a`, length `(b-a)+1`, on the characters of `s` (`${1:_ls:_ll}`) -/
+def ssh {α : Type} (s : List α) (a : Nat) (b : Int) : List α := (s.drop a).take ((b - a) + 1).toNat
+
+/-- **The inclusive pair the parser passes gives Go's half-open slice**, empty slices included. -/
+theorem ssh_is_go_slice {α : Type} (s : List α) (a e : Nat) (h1 : a ≤ e) :
+    ssh s a ((e : Int) - 1) = (s.take e).drop a := by
+  unfold ssh
+  have : (((e : Int) - 1 - (a : Int)) + 1).toNat = e - a := by omega
+  rw [this, List.take_drop]
+  congr 2; omega
+
+theorem ssh_single_index {α : Type} (s : List α) (i : Nat) (h : i < s.length) : ssh s i (i : Int) = [s[i]] := by
+  unfold ssh
+  have : (((i : Int) - (i : Int)) + 1).toNat = 1 := by omega
+  rw [this, List.drop_eq_getElem_cons h]
+  simp [List.take]
+
+/-! non-vacuity -/
+example : sah [1, 2, 3] 1 9 0 = [1, 9, 3] := by decide
+example : sah [1, 2] 4 9 0 = [1, 2, 0, 0, 9] := by decide
+example : sch [1, 2, 3] [9] = [9, 2, 3] ∧ sch [1] [7, 8] = [7, 8] := by decide
+example : ssh "hello".toList 1 ((3 : Int) - 1) = "el".toList := by decide
+example : ssh "hello".toList 2 ((2 : Int) - 1) = [] := by decide
 
 end Tsh.C03
